@@ -148,7 +148,7 @@ CLAIMED = {
     technique="Lean-verified translation-validation checker run on the real DCE outputs + differential execution"),
  "C11": dict(
     category="proof",
-    text="33 Lean theorems for all finite graphs, roots and edit histories: the container mirror never panics, keeps the four views "
+    text="36 Lean theorems for all finite graphs, roots and edit histories: the container mirror never panics, keeps the four views "
          "consistent and refines the abstract (V,E) graph; reachability, dominators, immediate dominators (existence and uniqueness), "
          "dominator tree, frontiers, back edges, natural loops, nesting, reducibility, acyclicity and transitive predecessors are the "
          "path-defined textbook objects (definitional models on one verified reach); pre-order, post-order, topological order and "
@@ -220,32 +220,35 @@ CLAIMED = {
     technique="Lean 4 definitional model + theorems; generated-file correspondence check with a readelf self-test"),
  "C03": dict(
     category="proof",
-    text="For add/adds/sub/subs (immediate and shifted register), mov (register, wide), nop, b, bl, br, blr, ret: for every word of the "
-         "class, every address and every machine state, running the IL the lifter emits (a Lean mirror of the lifter, compared "
-         "syntactically with falcon's real output on every differential case) yields the registers, NZCV and next pc of an A64 "
-         "interpreter that decodes the raw word, written from the Arm pseudocode. For subs the C flag is proved to be the negation of the "
-         "architectural carry (known finding). Integer immediate-mode loads: block/body theorem for all non-faulting states, decode "
-         "glue by differential. All other accepted classes: four-way differential only (falcon executor / Lean IL model / Lean A64 "
-         "interpreter / mirror) over class-exhaustive word sweeps and boundary+random states.",
+    text="21 Lean theorems. For add/adds/sub/subs (immediate, shifted register, extended register), mov (register, wide, bitmask immediate), "
+         "nop, integer ldr/ldrb/ldrh/ldrsb/ldrsh/ldrsw and str/strb/strh with immediate addressing (offset, unscaled, pre- and post-index), "
+         "b, bl, b.cond, cbz/cbnz, tbz/tbnz, br, blr, ret: for every word of the class, every address and every machine state in which "
+         "the Arm pseudocode completes, running the IL the lifter emits (a Lean mirror of the lifter, compared syntactically with falcon's "
+         "real output on every differential case) yields the registers, NZCV, memory and next pc of an A64 interpreter that decodes the raw "
+         "word, written from the Arm pseudocode (AddWithCarry, ExtendReg, DecodeBitMasks, ConditionHolds, Mem[] LE/BE). For subs the C flag "
+         "is proved to be the negation of the architectural carry (known finding). All other accepted classes: four-way differential only "
+         "(falcon executor / Lean IL model / Lean A64 interpreter / mirror) over class-exhaustive word sweeps and boundary+random states.",
     design_ref="DESIGN.md §6 C03",
     note="The specification is written from knowledge of the Arm ARM, which is not in the sandbox (no second source). CONSTRAINED "
          "UNPREDICTABLE encodings and faulting accesses are excluded and counted. Classes listed under (C) in reports/C03.md are unproved.",
     technique="Lean 4 mirror of the lifter + class theorems over all words, addresses and states; executable differential"),
  "C01": dict(
-    category="translation_validation",
-    text="Four-way differential per (encoding, state): falcon's executor on the lifted IL, the Lean IL semantics on the dumped IL, a Lean "
-         "x86 specification written from the SDM (both modes, on capstone's normalised operand description), and for amd64 the HOST CPU "
-         "single-stepping the same bytes from the same state (signal-frame context switch with the trap flag). Template sweep of every "
-         "accepted mnemonic x prefixes x 14 ModRM/SIB shapes. Machine-checked theorems that the lifter's shared helpers equal the SDM for "
-         "all values at 8/16/32/64 bits and denote this in IL in every state: flag formulas of add/adc/sub/sbb/inc/dec/neg, shl/shr/sar "
-         "CF and results, cc_condition for all 16 codes, sub-register get/set including high-byte registers. A Lean mirror reproduces "
-         "falcon's IL syntactically for the reg,reg class of mov/add/sub/cmp/and/or/xor.",
+    category="proof",
+    text="32 Lean theorems. Instruction level (64-bit mode): for mov/add/sub/cmp/and/or/xor r,r and r,imm and inc/dec/neg/not r at all "
+         "operand sizes including high-byte registers, for all registers (aliasing included), all addresses and all states, running the "
+         "IL of a Lean mirror of the lifter (compared syntactically with falcon's real output on every generated case of these classes) "
+         "yields all sixteen registers, CF ZF SF OF, memory and next pc of a Lean x86 specification written from the SDM. Helper level: "
+         "flag formulas of add/adc/sub/sbb/inc/dec/neg, shl/shr/sar CF and results, cc_condition for all 16 codes, sub-register get/set "
+         "equal the SDM for all values at 8/16/32/64 bits. Everything else: four-way differential per (encoding, state): falcon's "
+         "executor on the lifted IL, the Lean IL semantics on the dumped IL, the Lean specification (both modes, on capstone's normalised "
+         "operand description), and for amd64 the HOST CPU single-stepping the same bytes from the same state (signal-frame context "
+         "switch with the trap flag). Template sweep of every accepted mnemonic x prefixes x 14 ModRM/SIB shapes.",
     design_ref="DESIGN.md §6 C01",
-    note="No instruction-level lift_correct theorem and no universality over encodings. 32-bit mode has no silicon oracle (Lean spec "
+    note="Memory operands, 32-bit mode and all mnemonics outside the listed classes have no instruction-level theorem (differential only). 32-bit mode has no silicon oracle (Lean spec "
          "only). fs/gs forms have no silicon comparison. PF/AF are outside the property. 66-prefixed near branches are not generated "
          "(Intel and AMD differ). The fixed-width bit-vector theorems use bv_decide and therefore depend on its _native.bv_decide.ax_* "
          "axioms (listed per theorem in the evidence).",
-    technique="differential testing against an executable Lean ISA specification validated on silicon + Lean proofs of the lifter's helpers"),
+    technique="Lean 4 mirror of the lifter + class theorems over all registers, immediates and states; differential testing against the Lean ISA specification validated on silicon"),
  "C02": dict(
     category="proof",
     text="MIPS (mips/mipsel): for every register/immediate field and every state, the IL falcon emits for the integer ALU, shifts, "
